@@ -126,7 +126,9 @@ class UMNDirHandler(DirHandler):
             if linkentry.selector in fileentriesdict:
                 if linkentry.gettype() == "X":
                     # It's special code to hide something.
-                    self.fileentries.remove(fileentriesdict[linkentry.selector])
+                    hidden = fileentriesdict[linkentry.selector]
+                    if hidden in self.fileentries:  # not hidden already
+                        self.fileentries.remove(hidden)
                 else:
                     self.mergeentries(fileentriesdict[linkentry.selector], linkentry)
             elif linkentry.gettype() == "X":
